@@ -30,7 +30,11 @@ def parse_httpdate(date):
         return None
     if date[0] < 1970:
         date = (date[0] + 2000,) + date[1:]
-    return calendar.timegm(date)
+    try:
+        return calendar.timegm(date)
+    except (ValueError, OverflowError):
+        # e.g. year > 9999: not a date we can compare with, ignore it like any other malformed value
+        return None
 
 
 def timestamp(date):
